@@ -141,8 +141,13 @@ Definition decode_ref (name : str) : option N :=
 Fixpoint norm_eol (s : str) : str :=
   match s with
   | [] => []
-  | 13 :: r => 10 :: match r with 10 :: r' => norm_eol r' | _ => norm_eol r end
-  | c :: r => c :: norm_eol r
+  | c :: r =>
+      if c =? 13 then
+        10 :: match r with
+              | c' :: r' => if c' =? 10 then norm_eol r' else norm_eol r
+              | [] => []
+              end
+      else c :: norm_eol r
   end.
 
 (* expansion of references; `lit` maps a literal (non-reference) character,
@@ -168,8 +173,10 @@ Fixpoint expand (lit : N -> N) (st : option str) (s : str) : option str :=
 
 Fixpoint has_cdata_end (s : str) : bool :=
   match s with
-  | 93 :: 93 :: 62 :: _ => true
-  | _ :: r => has_cdata_end r
+  | a :: r => (match r with
+               | b :: c :: _ => (a =? c_rbracket) && (b =? c_rbracket) && (c =? c_gt)
+               | _ => false
+               end) || has_cdata_end r
   | [] => false
   end.
 
@@ -397,15 +404,17 @@ Inductive enode :=
 (* "{uri}local" -> (uri, local); written independently of the model's split_qname *)
 Definition clark_split (s : str) : qname :=
   match s with
-  | 123 :: r =>
-      match find_chr c_rbrace r with
-      | Some i => match firstn i r, skipn (S i) r with
-                  | (_ :: _) as u, (_ :: _) as l => (Some u, l)
-                  | _, _ => (None, s)
-                  end
-      | None => (None, s)
-      end
-  | _ => (None, s)
+  | c :: r =>
+      if c =? c_lbrace then
+        match find_chr c_rbrace r with
+        | Some i => match firstn i r, skipn (S i) r with
+                    | (_ :: _) as u, (_ :: _) as l => (Some u, l)
+                    | _, _ => (None, s)
+                    end
+        | None => (None, s)
+        end
+      else (None, s)
+  | [] => (None, s)
   end.
 
 Definition atoms_of_value (v : wvalue) : option (list atom) :=
@@ -429,7 +438,7 @@ Definition atoms_trivial (l : list atom) : bool :=
 Definition attr_atoms (q : qname) (l : list atom) : list atom :=
   if qname_eqb q q_xsi_type then
     match l with
-    | [AText ((123 :: _) as s)] => [AQName (clark_split s)]
+    | [AText s] => if startswith [c_lbrace] s then [AQName (clark_split s)] else l
     | _ => l
     end
   else l.
